@@ -130,7 +130,13 @@ func parseDoc(s string) (*parsed, *parseErr) {
 		case tDoctype:
 			skel = append(skel, slot{'D', i})
 		case tCDATA:
-			cdataAt[len(skel)] = append(cdataAt[len(skel)], normLineEnds(t.data))
+			c := normLineEnds(t.data)
+			if strings.HasSuffix(t.data, "\r") {
+				// a CR that ends a section may pair up with a following LF once the
+				// section is inlined (XML 1.0 2.11 line-end handling): white space only
+				c = c[:len(c)-1]
+			}
+			cdataAt[len(skel)] = append(cdataAt[len(skel)], c)
 		}
 	}
 
@@ -541,8 +547,114 @@ func knownShapes(s string, in *parsed, keep bool) shapes {
 				}
 			}
 		}
+		// mirrored: PI, white-space-only run, element tag, where the character data
+		// before the PI(s) ends with white space
+		for i := range in.runs {
+			if in.depth[i] == 0 || i == 0 || i >= len(in.evs) || in.runs[i] == "" || !allSpace(in.runs[i]) {
+				continue
+			}
+			if in.evs[i-1].kind != 'P' || !isTagEv(&in.evs[i]) {
+				continue
+			}
+			for j := i - 1; j >= 0; j-- {
+				if in.runs[j] != "" {
+					if isXMLSpace(in.runs[j][len(in.runs[j])-1]) {
+						sh["N02"] = true
+					}
+					break
+				}
+				if j == 0 || in.evs[j-1].kind != 'P' {
+					break
+				}
+			}
+		}
+	}
+	if len(n05Runs(in, keep)) > 0 {
+		sh["N05"] = true
 	}
 	return sh
+}
+
+var reLeadWSRef = regexp.MustCompile(`^&#(0*(9|10|13|32)|[xX]0*(9|[aAdD]|20));`)
+var reTrailWSRef = regexp.MustCompile(`&#(0*(9|10|13|32)|[xX]0*(9|[aAdD]|20));$`)
+
+func startsWS(raw string) bool {
+	return raw != "" && (isXMLSpace(raw[0]) || reLeadWSRef.MatchString(raw))
+}
+func endsWS(raw string) bool {
+	return raw != "" && (isXMLSpace(raw[len(raw)-1]) || reTrailWSRef.MatchString(raw))
+}
+
+// n05Runs recognises the N05 shape: a text token that starts with white space and is
+// preceded (comments / PIs / empty CDATA aside) by a non-empty CDATA section that does
+// not end in white space, in a context where the minifier's "omit next leading space"
+// flag is (or may be) still set from before the CDATA section. It returns the indices
+// of the text runs that contain such a token.
+func n05Runs(in *parsed, keep bool) map[int]bool {
+	out := map[int]bool{}
+	toks := in.toks
+	runOf := make([]int, len(toks))
+	k := 0
+	for i, t := range toks {
+		runOf[i] = k
+		switch t.kind {
+		case tSTag, tETag, tPI, tDoctype:
+			k++
+		case tEmpty:
+			k += 2
+		}
+	}
+	for k, t := range toks {
+		if t.kind != tText || !startsWS(t.data) {
+			continue
+		}
+		saw := false
+		flagged := false
+		j := k - 1
+	walk:
+		for ; j >= 0; j-- {
+			u := toks[j]
+			switch u.kind {
+			case tComment, tPI, tDoctype:
+				continue
+			case tCDATA:
+				if u.data == "" {
+					continue
+				}
+				if isXMLSpace(u.data[len(u.data)-1]) {
+					flagged = saw
+					break walk
+				}
+				saw = true
+			case tText:
+				if saw && endsWS(u.data) {
+					// the trailing space of u is given up only when the next CDATA
+					// section starts with white space; otherwise the flag stays set
+					// (a white-space-only u may vanish altogether with the flag left set)
+					flagged = true
+					for m := j + 1; m < k && !allSpace(u.data); m++ {
+						if toks[m].kind == tCDATA {
+							if toks[m].data != "" && isXMLSpace(toks[m].data[0]) {
+								flagged = false
+							}
+							break
+						}
+					}
+				}
+				break walk
+			default: // element tags
+				flagged = saw && !keep
+				break walk
+			}
+		}
+		if j < 0 && saw {
+			flagged = true
+		}
+		if flagged {
+			out[runOf[k]] = true
+		}
+	}
+	return out
 }
 
 func firstByte(s string) byte {
@@ -552,7 +664,12 @@ func firstByte(s string) byte {
 	return s[0]
 }
 
+// reNulRef: a character reference to U+0000 (never well-formed) is decoded to a raw NUL
+// byte, which the lexer then refuses on a second pass (N06, malformed stream only).
+var reNulRef = regexp.MustCompile(`&#(0+|[xX]0+);`)
+
 var knownSig = map[string]string{
+	"N06": "N06:malformed:nul-charref-decoded-second-pass-fails",
 	"K27": "K27:attr:charref-decoded-to-raw-character",
 	"K28": "K28:text:cdata-end-marker-formed-by-joining",
 	"K42": "K42:pi-data-changed",
@@ -561,6 +678,7 @@ var knownSig = map[string]string{
 	"N02": "N02:keepws:space-between-tag-and-pi-removed",
 	"N03": "N03:attr:crlf-becomes-two-spaces",
 	"N04": "N04:doctype:bracket-in-literal-or-comment-ends-doctype",
+	"N05": "N05:text:space-after-cdata-dropped",
 }
 
 // classify turns an oracle difference into a root-cause signature. Known ids are only
@@ -590,17 +708,29 @@ func classifyDiff(d *diff, s string, in *parsed, keep bool) string {
 		if sh["N04"] {
 			return knownSig["N04"]
 		}
+	case "text:words-joined", "keepws:trailing-space-removed", "keepws:leading-space-removed":
+		if n05Runs(in, keep)[d.ev] {
+			return knownSig["N05"]
+		}
 	case "keepws:whitespace-run-removed":
 		i := d.ev
+		if n05Runs(in, keep)[i] {
+			return knownSig["N05"]
+		}
 		if i > 0 && i < len(in.evs) {
 			l, r := &in.evs[i-1], &in.evs[i]
 			if l.kind == 'S' && r.kind == 'E' && sh["N01"] && len(in.cdatas[i]) == 0 {
 				return knownSig["N01"]
 			}
-			if isTagEv(l) && r.kind == 'P' && sh["N02"] {
+			if (isTagEv(l) && r.kind == 'P' || l.kind == 'P' && isTagEv(r)) && sh["N02"] {
 				return knownSig["N02"]
 			}
 		}
+	}
+	if sh["N04"] {
+		// once the DOCTYPE is mis-lexed the rest of the document is read in the wrong
+		// state; any difference downstream has that root cause
+		return knownSig["N04"]
 	}
 	return "NEW:" + d.cat
 }
@@ -621,13 +751,34 @@ func classifyIllFormed(pe *parseErr, s string, in *parsed, keep bool) string {
 		return knownSig["K42"]
 	case sh["N04"]:
 		return knownSig["N04"]
+	case strings.Contains(msg, "]]>") && sh["N05"]:
+		return knownSig["N05"] // "]] &gt;" lost its space after a CDATA section
 	}
-	// keep the signature stable: drop positions and quoted specifics
-	msg = regexp.MustCompile(`[0-9]+`).ReplaceAllString(msg, "N")
+	return "NEW:illformed:" + pe.stage + ":" + stableMsg(msg)
+}
+
+// stableMsg reduces an error message to its constant part so that one root cause gives
+// one signature.
+func stableMsg(msg string) string {
+	for _, p := range []string{"invalid character entity", "unescaped < inside quoted string", "unescaped ]]> not in CDATA section", "illegal character code",
+		"unexpected EOF", "expected attribute name", "attribute name without = in element", "unquoted or missing attribute value", "invalid sequence", "unexpected end element",
+		"duplicate attribute", "document needs exactly one root element", "element <", "expected element name", "invalid XML name", "expected target name"} {
+		if strings.HasPrefix(msg, p) {
+			return strings.TrimSpace(strings.TrimSuffix(p, "<"))
+		}
+	}
+	cut := len(msg)
+	for i, r := range msg {
+		if r == '&' || r == '<' || r == '"' || r == '\'' || r >= '0' && r <= '9' || r > 126 {
+			cut = i
+			break
+		}
+	}
+	msg = strings.TrimSuffix(strings.TrimSpace(msg[:cut]), " at")
 	if len(msg) > 60 {
 		msg = msg[:60]
 	}
-	return "NEW:illformed:" + pe.stage + ":" + msg
+	return msg
 }
 
 // ---------------------------------------------------------------------------------
